@@ -12,23 +12,10 @@
 EXTENDS Exact, Json, IOUtils, TLC, FiniteSets
 
 Decl == JsonDeserialize(IOEnv.DECL)
-Obs  == JsonDeserialize(IOEnv.OBS)
+ObsFile == IOEnv.OBS
 
 Range(f) == {f[i] : i \in DOMAIN f}
 Has(r, k) == k \in DOMAIN r
-
----------------------------------------------------------------------------
-\* Observed side
-OKnownT(T) == T \in DOMAIN Obs.types
-OUnits(T)  == Obs.types[T].units                       \* sequence, iteration order
-OIdxOf(T, u) == IF \E i \in DOMAIN OUnits(T) : OUnits(T)[i].id = u
-                THEN CHOOSE i \in DOMAIN OUnits(T) : OUnits(T)[i].id = u ELSE 0
-OKnownU(T, u) == OKnownT(T) /\ OIdxOf(T, u) # 0
-OUnit(T, u)  == OUnits(T)[OIdxOf(T, u)]
-OScale(T, u) == OUnit(T, u).scale
-OKind(T)     == Obs.types[T].kind
-OHasPfx(T, u) == OUnit(T, u).pfx # "-"
-ORefUnit(T)  == Obs.types[T].ref_unit_q
 
 ---------------------------------------------------------------------------
 \* Declared side
@@ -69,6 +56,79 @@ DScaleRaw(T, u) ==
 DScaleTab == [T \in DOMAIN Decl.types |->
                 [i \in DOMAIN Decl.types[T].units |-> DScaleRaw(T, Decl.types[T].units[i].id)]]
 DScale(T, u) == DScaleTab[T][DIdxOf(T, u)]
+
+---------------------------------------------------------------------------
+(* The macro machine, dynamic part: Expand.  Transcription of analyze():   *)
+(* the reference unit is inserted first, then the units in attribute       *)
+(* order, then a STABLE sort by scale; without reference unit a stable     *)
+(* sort by name.                                                           *)
+RECURSIVE LexLess(_, _)
+LexLess(s, t) == IF s = <<>> THEN t # <<>>
+                 ELSE IF t = <<>> THEN FALSE
+                 ELSE IF Head(s) < Head(t) THEN TRUE
+                 ELSE IF Head(s) > Head(t) THEN FALSE
+                 ELSE LexLess(Tail(s), Tail(t))
+
+\* declared scale fraction of the i-th declared unit
+DScaleI(T, i) == DScaleTab[T][i]
+FracLess(f, g) == XLt(XMul(f.n, g.d), XMul(g.n, f.d))     \* denominators positive
+
+UnitLess(T, i, j) ==
+    IF DKind(T) = "ref" THEN FracLess(DScaleI(T, i), DScaleI(T, j))
+    ELSE LexLess(DUnits(T)[i].name_cp, DUnits(T)[j].name_cp)
+RECURSIVE InsertStable(_, _, _)
+InsertStable(T, sorted, x) ==
+    IF sorted = <<>> THEN <<x>>
+    ELSE IF UnitLess(T, x, Head(sorted)) THEN <<x>> \o sorted
+    ELSE <<Head(sorted)>> \o InsertStable(T, Tail(sorted), x)
+RECURSIVE SortStable(_, _, _)
+SortStable(T, xs, acc) ==
+    IF xs = <<>> THEN acc ELSE SortStable(T, Tail(xs), InsertStable(T, acc, Head(xs)))
+
+ExpectedOrderRaw(T) ==
+    LET n   == Len(DUnits(T))
+        ord == SortStable(T, [i \in 1..n |-> i], <<>>)
+    IN  [k \in 1..n |-> DUnits(T)[ord[k]].id]
+ExpOrderTab == [T \in DOMAIN Decl.types |-> ExpectedOrderRaw(T)]
+ExpectedOrder(T) == ExpOrderTab[T]
+
+
+(* What the generated code should report about itself: the registry        *)
+(* obtained by expanding every declaration.  Used as the "observed"        *)
+(* registry when the specification is model-checked on its own (OBS =      *)
+(* "expand"); under trace validation Obs is what the real code reported.   *)
+ExpandType(T) ==
+    LET n   == Len(DUnits(T))
+        ord == SortStable(T, [i \in 1..n |-> i], <<>>)
+        isref == Decl.types[T].kind = "ref"
+        unit(k) == LET du == DUnits(T)[ord[k]] IN
+                   [id |-> du.id, name |-> [cp |-> du.name_cp], sym |-> [cp |-> du.sym_cp], pfx |-> du.pfx,
+                    \* the macro takes the scale from the literal as written (reference unit: one)
+                    scale |-> IF du.lit.k = "fin" THEN du.lit ELSE IF du.def.kind = "ref" THEN XOne ELSE DScaleTab[T][ord[k]].n,
+                    is_ref |-> du.def.kind = "ref"]
+    IN  [T |-> T, kind |-> Decl.types[T].kind,
+         ref_unit_q |-> IF isref THEN DRefUnit(T) ELSE "-",
+         units |-> [k \in 1..n |-> unit(k)]]
+AmountObs == [T |-> "Amount", kind |-> "ref", ref_unit_q |-> "One",
+              units |-> <<[id |-> "One", name |-> [cp |-> <<79, 110, 101>>], sym |-> [cp |-> <<>>], pfx |-> "-",
+                           scale |-> XOne, is_ref |-> TRUE]>>]
+ExpandedObs == [types |-> [T \in (DOMAIN Decl.types) \cup {"Amount"} |->
+                              IF T = "Amount" THEN AmountObs ELSE ExpandType(T)]]
+
+Obs == IF ObsFile = "expand" THEN ExpandedObs ELSE JsonDeserialize(ObsFile)
+
+---------------------------------------------------------------------------
+\* Observed side
+OKnownT(T) == T \in DOMAIN Obs.types
+OUnits(T)  == Obs.types[T].units                       \* sequence, iteration order
+OIdxOf(T, u) == IF \E i \in DOMAIN OUnits(T) : OUnits(T)[i].id = u
+                THEN CHOOSE i \in DOMAIN OUnits(T) : OUnits(T)[i].id = u ELSE 0
+OKnownU(T, u) == OKnownT(T) /\ OIdxOf(T, u) # 0
+OUnit(T, u)  == OUnits(T)[OIdxOf(T, u)]
+OScale(T, u) == OUnit(T, u).scale
+OKind(T)     == Obs.types[T].kind
+OHasPfx(T, u) == OUnit(T, u).pfx # "-"
+ORefUnit(T)  == Obs.types[T].ref_unit_q
 
 ---------------------------------------------------------------------------
 (* The operator table generated from the declared derivations              *)
